@@ -1,7 +1,7 @@
 (* C01 / C02 — pinned statements only.  Each is closed by [exact] of a lemma proved in
    Coll/Monitor.v, Coll/Run.v or Coll/DurableProofs*.v and followed by Print Assumptions. *)
 From Coq Require Import List ZArith String Bool Arith.
-From Verif Require Import Coll.Tags gen.Gen_CollFlush Coll.Monitor Coll.Run Coll.Durable Coll.DurableProofs Coll.DurableOps Coll.DurableFlush Coll.DurableReach.
+From Verif Require Import Coll.Tags gen.Gen_CollFlush Coll.Monitor Coll.Run Coll.Durable Coll.DurableProofs Coll.DurableOps Coll.DurableFlush Coll.DurableReach Coll.Rollback.
 Import ListNotations.
 
 (* ------------------------------------------------------------------ generated facts (T) *)
@@ -236,6 +236,44 @@ Theorem C01_document_before_intent_refuted :
               b_docs (crash k bad ex_b0) 1 = Some 7 /\ h_idx h 0 = [(5, 1)].
 Proof. exists 3. eexists. vm_compute. repeat split. Qed.
 Print Assumptions C01_document_before_intent_refuted.
+
+(* ------------------------------------------------------------------ rejected writes: the rollback closures *)
+(* The closure `rollback_indexes` of update_impl, run in the order its loops have in the source and with the
+   source's registration points, restores the entry of the document's id in both id-keyed indexes (BM25, HNSW)
+   and reports success, whichever index stage refused the new value (or none: the document PUT failed). *)
+Theorem C02_update_rollback_restores_id_keyed_indexes : forall pre sc,
+  let '(st, c) := forward_update update_bm25_inserted_registered_before_insert
+                                 update_hnsw_inserted_registered_before_insert pre sc in
+  rollback update_rollback_order c st = (pre, true).
+Proof. exact update_rollback_restores. Qed.
+Print Assumptions C02_update_rollback_restores_id_keyed_indexes.
+
+Theorem C02_add_rollback_restores_id_keyed_indexes : forall nb fb nh fh,
+  let pre := {| e_bm25 := None; e_hnsw := None |} in
+  let '(st, c) := forward_update add_bm25_inserted_registered_before_insert
+                                 add_hnsw_inserted_registered_before_insert pre
+                    {| t_bm25 := true; n_bm25 := nb; f_bm25 := fb; t_hnsw := true; n_hnsw := nh; f_hnsw := fh |} in
+  rollback add_rollback_order {| bm25_ins := bm25_ins c; hnsw_ins := hnsw_ins c; bm25_rem := None; hnsw_rem := None |} st = (pre, true).
+Proof. exact add_rollback_restores. Qed.
+Print Assumptions C02_add_rollback_restores_id_keyed_indexes.
+
+Theorem C02_remove_rollback_restores_id_keyed_indexes : forall pre,
+  rollback remove_rollback_order {| bm25_ins := false; hnsw_ins := false; bm25_rem := e_bm25 pre; hnsw_rem := e_hnsw pre |}
+           {| e_bm25 := None; e_hnsw := None |} = (pre, true).
+Proof. exact remove_rollback_restores. Qed.
+Print Assumptions C02_remove_rollback_restores_id_keyed_indexes.
+
+Theorem C02_rollback_orders_complete :
+  List.length update_rollback_order = 5 /\ List.length add_rollback_order = 3 /\ List.length remove_rollback_order = 3.
+Proof. exact rollback_orders_complete. Qed.
+Print Assumptions C02_rollback_orders_complete.
+
+(* restore-then-undo loses the entry of a live document that carries a vector *)
+Theorem C02_update_rollback_swapped_refuted : exists pre sc,
+  let '(st, c) := forward_update false true pre sc in
+  e_hnsw pre = Some 7 /\ e_hnsw (fst (rollback swapped_hnsw_order c st)) = None.
+Proof. exact update_rollback_swapped_refuted. Qed.
+Print Assumptions C02_update_rollback_swapped_refuted.
 
 (* ------------------------------------------------------------------ non-vacuity *)
 Example C02_monitor_nonvacuous :
